@@ -42,6 +42,19 @@ type PathResult struct {
 	Inputs     []string
 }
 
+type obsEntry struct {
+	name  string
+	terms []*Term
+	bytes bool
+}
+
+// SelfSample is one concrete input vector of an explored path with the values
+// the engine computed for the harness' observations.
+type SelfSample struct {
+	Model        map[string]uint64 `json:"model"`
+	Observations []string          `json:"observations"`
+}
+
 type region struct {
 	name string
 	cond *Term
@@ -56,6 +69,7 @@ type Config struct {
 	// known-finding id -> set of assertion ids it may excuse ("*" = any)
 	Known map[string]map[string]bool
 	Trace    bool
+	SelfSamples int // per worker: returned paths sampled for translation validation
 	Cross    string // secondary solver for cross-checking assertion queries ("" = off)
 	Thorough bool
 	Disable  map[string]bool
@@ -110,6 +124,10 @@ type Exec struct {
 	havocSeq    int
 	mapOrderAny bool
 	observed    []string
+	observedT   []obsEntry
+	selfSamples []SelfSample // concrete samples of returned paths (translation validation)
+	selfSeen int
+	selfWant    int
 
 	// statistics over the whole run
 	funcsSeen map[*ssa.Function]int
